@@ -156,7 +156,7 @@ Definition enable_objs (qk : quirks) (cfg : regcfg) (os : objs) (cs : list strin
   then foldl (λ m c, match m !! c with Some o => <[c := check_obj cfg o]> m | None => m end) os cs
   else os.
 Definition enable_entries qk cfg (os : objs) (s : rstate) (cs : list string) (kw : params) : list centry :=
-  let inh := chain_defaults (rs_active s) in
+  let inh := chain_defaults qk (rs_active s) in
   let kw' := if bool_decide (inh = ∅) then kw else kw ∪ inh in
   map (λ c, mk_entry qk cfg kw' c (default dummy_obj (enable_objs qk cfg os cs !! c))) cs.
 
@@ -783,9 +783,9 @@ Qed.
     context has been left (the switch [q_base_cache_ctx_blind] alone suffices) *)
 Lemma exit_restores_base_refuted :
   ∃ cfg st blk q,
-    balanced blk ∧ run_ok (QK false true false false) cfg st blk = true ∧ run_ok faithful cfg st blk = true ∧
-    answer_of (QK false true false false) cfg (run (QK false true false false) cfg st blk).2 q
-      ≠ answer_of (QK false true false false) cfg st.2 q ∧
+    balanced blk ∧ run_ok (QK false true false false false) cfg st blk = true ∧ run_ok faithful cfg st blk = true ∧
+    answer_of (QK false true false false false) cfg (run (QK false true false false false) cfg st blk).2 q
+      ≠ answer_of (QK false true false false false) cfg st.2 q ∧
     answer_of faithful cfg (run faithful cfg st blk).2 q ≠ answer_of faithful cfg st.2 q.
 Proof.
   exists ex_cfg, ex_st, [OWithEnter ["rb"] ∅; OProbe (PBase (c1 "yard")); OWithExit], (PBase (c1 "yard")).
@@ -801,7 +801,7 @@ Qed.
     [q_rebuild_on_hit] alone suffices) *)
 Lemma exit_restores_refuted :
   ∃ cfg st0 ops blk q,
-    let qk := QK false false false true in
+    let qk := QK false false false true false in
     balanced blk ∧ run_ok qk cfg (run qk cfg st0 ops) blk = true ∧ run_ok faithful cfg (run faithful cfg st0 ops) blk = true ∧
     answer_of qk cfg (run qk cfg (run qk cfg st0 ops) blk).2 q ≠ answer_of qk cfg (run qk cfg st0 ops).2 q ∧
     answer_of faithful cfg (run faithful cfg (run faithful cfg st0 ops) blk).2 q
